@@ -6,6 +6,7 @@ def run(tier, seed):
     n = 4 if tier == "quick" else 6
     c.assumptions = [
         "expression text: every string of 0..%d bytes over the alphabet {space ( ) ! & | a b c} after the '#wa:build ' prefix (VfH_expr); every string of 0..%d arbitrary bytes (VfH_anybytes)" % (n, 2 if tier == "quick" else 3),
+        "token-level harness: every sequence of up to %d tokens over {a b ( ) ! && ||} (enumerated, concrete execution), tag assignment symbolic" % 7,
         "tag assignment: an arbitrary 16-bit truth table indexed by a hash of the tag text, the same function on both sides",
         "oracle: an independent precedence-climbing evaluator over the bytes written in the harness (|| < && < !, parentheses, no double negation)",
         "file selection by the loader (isSkipedAstFile and the directory walk) is outside this check",
@@ -13,5 +14,5 @@ def run(tier, seed):
     c.bounds["expr_bytes_max"] = n
     ncases = 1 + 9 * 4 + (0 if tier == "quick" else 81 * (n - 4))
     c.run_unit("internal/loader/buildtag", "buildtag",
-               opts={"maxdecisions": 2500, "caselimit": "VfH_expr=%d,VfH_anybytes=%d" % (ncases, 3 if tier == "quick" else 4), "samples": 3})
+               opts={"maxdecisions": 2500, "caselimit": "VfH_expr=%d,VfH_anybytes=%d,VfH_tokens=%d" % (ncases, 3 if tier == "quick" else 4, 7 + 49 * (7 - 1)), "samples": 3})
     return c.finish()
